@@ -290,7 +290,8 @@ impl OtlpBuilder {
             // Process batches from each signal independently
             // This ensures one signal becoming unavailable doesn't
             // block the others
-            let _ = processors.into_future().await;
+            let mut processors = processors;
+            while processors.next().await.is_some() {}
         };
 
         // Spawn a background thread to process batches
